@@ -30,6 +30,7 @@ func runLOC(c *Ctx) (obls []Obl) {
 	locProbe(c, a)
 	locSkip(c, a)
 	locRootSuffix(c, a)
+	locWiring(c, a)
 	return
 }
 
@@ -507,6 +508,7 @@ func locBranches(c *Ctx, a *flAgg) {
 		return
 	}
 	exprHome = fn.Pkg.Pkg
+	locAllRoots(a, fn)
 	x := &SPE{Fn: fn, MaxVisits: 2}
 	x.Explore()
 	c.stat("LOC", "updateLocations_paths", len(x.Paths))
@@ -881,5 +883,188 @@ func locConsts(c *Ctx, a *flAgg) {
 		a.ok("LOC-consts", "src+pkg/mod", "findRoots, hasSrcPrefix and updateLocations agree on the directory names /src and /pkg/mod", token.NoPos)
 	} else {
 		a.bad("LOC-consts", "src+pkg/mod", fmt.Sprintf("the sibling functions do not use the same directory constants (unexpected: %v)", extra), token.NoPos)
+	}
+}
+
+// locWiring (LOC-wiring): the roots that findRoots detected are the ones the
+// frames are matched against. Backwards from Call.updateLocations, whose
+// parameters have the roles goroot (remote GOROOT), localgoroot, localgomods
+// and gopaths (remote GOPATH -> local), every call site of a role-carrying
+// function in package stack must feed each role with the caller's parameter
+// of the same role, until the call that reads them from the snapshot, where
+// the values must be the fields RemoteGOROOT, LocalGOROOT, LocalGomods and
+// RemoteGOPATHs in that order of roles. Two of the four have the same type
+// twice over: swapping them compiles, and passes every test in which the
+// remote and the local root are the same directory.
+func locWiring(c *Ctx, a *flAgg) {
+	const rule = "LOC-wiring"
+	leaf := c.MustFunc(a.obls, rule, "stack", "Call", "updateLocations")
+	if leaf == nil {
+		return
+	}
+	want := map[string]string{"goroot": "RemoteGOROOT", "localgoroot": "LocalGOROOT", "localgomods": "LocalGomods", "gopaths": "RemoteGOPATHs"}
+	type slot struct {
+		fn  *ssa.Function
+		idx int
+	}
+	role := map[slot]string{}
+	n := 0
+	// the roles are positions of the leaf (receiver, then the four roots), the
+	// same reading LOC-branch checks the body against
+	if len(leaf.Params) == 5 {
+		for i, r := range []string{"goroot", "localgoroot", "localgomods", "gopaths"} {
+			role[slot{leaf, i + 1}] = r
+			n++
+		}
+	}
+	if n != 4 {
+		a.und(rule, "Call.updateLocations/params", fmt.Sprintf("expected the four root parameters goroot, localgoroot, localgomods, gopaths; found %d of them", n), leaf.Pos())
+		return
+	}
+	fns := c.L.SrcFuncs("stack")
+	work := []*ssa.Function{leaf}
+	seen := map[*ssa.Function]bool{}
+	tops := 0
+	for len(work) > 0 {
+		h := work[0]
+		work = work[1:]
+		if seen[h] {
+			continue
+		}
+		seen[h] = true
+		for _, g := range fns {
+			for _, b := range g.Blocks {
+				for _, in := range b.Instrs {
+					ci, ok := in.(ssa.CallInstruction)
+					if !ok || ci.Common().StaticCallee() != h {
+						continue
+					}
+					for i := range h.Params {
+						r := role[slot{h, i}]
+						if r == "" || i >= len(ci.Common().Args) {
+							continue
+						}
+						key := funcKey(g) + "->" + funcKey(h) + "/" + r
+						switch arg := ci.Common().Args[i].(type) {
+						case *ssa.Parameter:
+							pi := -1
+							for k, q := range g.Params {
+								if q == arg {
+									pi = k
+								}
+							}
+							if old := role[slot{g, pi}]; old != "" && old != r {
+								a.bad(rule, key, fmt.Sprintf("parameter %s is passed on both as %s and as %s", arg.Name(), old, r), in.Pos())
+								continue
+							}
+							role[slot{g, pi}] = r
+							a.ok(rule, key, "passed on unchanged", in.Pos())
+							if !seen[g] {
+								work = append(work, g)
+							}
+						case *ssa.UnOp:
+							fa, isF := arg.X.(*ssa.FieldAddr)
+							if arg.Op == token.MUL && isF && addrLast(fa) == want[r] {
+								tops++
+								a.ok(rule, key, "read from the snapshot field "+want[r], in.Pos())
+							} else {
+								got := arg.String()
+								if isF {
+									got = "field " + addrLast(fa)
+								}
+								a.bad(rule, key, fmt.Sprintf("the %s handed to the frames is %s, not the snapshot's %s: frames are matched against (or mapped into) the wrong root whenever the two differ", r, got, want[r]), in.Pos())
+							}
+						default:
+							a.bad(rule, key, fmt.Sprintf("the %s handed on is neither the caller's own %s nor the snapshot's %s (%s)", r, r, want[r], arg.String()), in.Pos())
+						}
+					}
+				}
+			}
+		}
+	}
+	if tops == 0 {
+		a.und(rule, "top", "no call reads the roots from the snapshot", leaf.Pos())
+	}
+}
+
+// locAllRoots: a loop over the roots in Call.updateLocations (and in helpers
+// it was split into) is left early only by a match: every edge out of such a
+// loop other than the one taken when the roots are exhausted leads to code
+// that returns true and reaches no further loop. A `break` on some ordering
+// argument ("the roots are sorted, none of the remaining ones can match")
+// leaves roots untried.
+func locAllRoots(a *flAgg, fn *ssa.Function) {
+	fns := []*ssa.Function{fn}
+	seen := map[*ssa.Function]bool{fn: true}
+	for _, b := range blocksWithHelpers(fn) {
+		if !seen[b.Parent()] {
+			seen[b.Parent()] = true
+			fns = append(fns, b.Parent())
+		}
+	}
+	n := 0
+	for _, f := range fns {
+		loops := naturalLoops(f)
+		headers := map[*ssa.BasicBlock]bool{}
+		for _, l := range loops {
+			headers[l.Header] = true
+		}
+		for _, l := range loops {
+			for b := range l.Body {
+				if b == l.Header {
+					continue
+				}
+				for _, s := range b.Succs {
+					if l.Body[s] {
+						continue
+					}
+					// inner loops of l leave into l, not out of it: only edges that leave every enclosing... this edge leaves l
+					n++
+					ok := true
+					why := ""
+					vis := map[*ssa.BasicBlock]bool{}
+					var dfs func(x *ssa.BasicBlock)
+					dfs = func(x *ssa.BasicBlock) {
+						if vis[x] || !ok {
+							return
+						}
+						vis[x] = true
+						if headers[x] {
+							ok, why = false, "goes on to the next loop"
+							return
+						}
+						for _, in := range x.Instrs {
+							if ret, isR := in.(*ssa.Return); isR {
+								for _, r := range ret.Results {
+									k, isC := r.(*ssa.Const)
+									if !isC || k.Value == nil || k.Value.String() != "true" {
+										ok, why = false, "returns something else than true"
+									}
+								}
+							}
+						}
+						for _, y := range x.Succs {
+							dfs(y)
+						}
+					}
+					dfs(s)
+					pos := token.NoPos
+					if len(b.Instrs) > 0 {
+						pos = b.Instrs[len(b.Instrs)-1].Pos()
+					}
+					if pos == token.NoPos && len(s.Instrs) > 0 {
+						pos = s.Instrs[0].Pos()
+					}
+					if ok {
+						a.ok("LOC-branch", "updateLocations/all-roots", "a loop over the roots is left early only with a match", pos)
+					} else {
+						a.bad("LOC-branch", "updateLocations/all-roots", "a loop over the roots can be left before all roots were tried without having matched ("+why+"): frames under the roots not reached stay unknown, without local path", pos)
+					}
+				}
+			}
+		}
+	}
+	if n == 0 {
+		a.ok("LOC-branch", "updateLocations/all-roots", "no loop over the roots is left early", fn.Pos())
 	}
 }
